@@ -1,24 +1,29 @@
 ------------------------- MODULE CalculatorsTrace -------------------------
 (* Conformance of phonopy's calculator interfaces with Calculators.tla.     *)
 (* Every event is one real execution recorded by harness/props/c17.py:      *)
-(*   kind "rt"     - a cell was written with write_crystal_structure /      *)
-(*                   write_supercells_with_displacements of E.ecalc and the  *)
-(*                   written file was read back; E.eres is the projected  *)
-(*                   read-back cell (species, position id matched modulo    *)
-(*                   lattice vectors within the format's resolution,        *)
-(*                   moment) plus lattice flags;                            *)
+(*   kind "rt"     - a cell was written with write_crystal_structure        *)
+(*                   (route "api") or write_supercells_with_displacements   *)
+(*                   (route "sc") of E.ecalc and the written file was read  *)
+(*                   back; E.eres is the projected read-back cell (species, *)
+(*                   position id matched modulo lattice vectors within the  *)
+(*                   format's resolution, moment token) plus lattice flags; *)
 (*   kind "read"   - see TOrder;                                            *)
-(*   kind "forces" - additionally a synthetic calculator output listing     *)
-(*                   the atoms in FILE order was given to create_FORCE_SETS;*)
+(*   kind "forces" - additionally synthetic calculator outputs listing the  *)
+(*                   atoms in FILE order were given to create_FORCE_SETS    *)
+(*                   (E.mode: dataset type, --fz, WIEN2k symmetric scf);    *)
 (*                   E.fs is the projected FORCE_SETS (force tokens per     *)
-(*                   dataset atom) or the refusal.                          *)
+(*                   dataset atom, displacements kept) or the refusal;      *)
+(*   kind "convert"- convert_crystal_structure from E.ecalc to E.ocalc;     *)
+(*                   E.eres is the read-back of the OUTPUT file, lattice    *)
+(*                   compared in Angstrom with the unit factors of Units.tla*)
 (* The step machine runs on the event's input; at the end the requirement   *)
-(* is evaluated on the LOGGED values (Impl.. invariants: a failure violates  *)
-(* C17) and the logged values are compared with the machine (Conforms..).  *)
+(* is evaluated on the LOGGED values (Impl.. predicates: a failure violates *)
+(* C17) and the logged values are compared with the machine (Conforms..).   *)
 EXTENDS Calculators
 
-CONSTANT Events   \* records [n, kind, ecalc, ecell, eres, fs]  (field names differ from the variables'
-                  \* names on purpose: SANY's linter warns once per record literal otherwise)
+CONSTANT Events   \* records [n, kind, route, ecalc, ocalc, ecell, ncl, mode, orbit, eres, fs]
+                  \* (field names differ from the variables' names on purpose: SANY's
+                  \* linter warns once per record literal otherwise)
 
 VARIABLE ev
 tvars == <<vars, ev>>
@@ -26,12 +31,19 @@ E == ev
 
 TInit == Init /\ ev \in Events
 
+PerfectOf(c) == [k \in 1..Len(c) |-> [c[k] EXCEPT !.id = k]]
+
 TChoose ==
   /\ pc = "choose"
   /\ calc' = E.ecalc /\ cell' = E.ecell
-  /\ phase' = IF E.kind = "forces" THEN "displaced" ELSE "perfect"
+  /\ phase' = CASE E.kind = "forces" -> "displaced" [] E.kind = "convert" -> "convert-in" [] OTHER -> "perfect"
+  /\ calc2' = IF E.kind = "convert" THEN E.ocalc ELSE ""
+  /\ mode' = E.mode
+  /\ orbit' = E.orbit
+  /\ cell0' = IF E.kind = "convert" THEN E.ecell ELSE PerfectOf(E.ecell)
+  /\ order0' = IF Trait[E.ecalc].groups THEN GroupPerm(SpeciesOf(E.ecell)) ELSE Identity(Len(E.ecell))
   /\ pc' = "order"
-  /\ UNCHANGED <<order, file, back, outp, result>>
+  /\ UNCHANGED <<order, file, back, outp, result, resid>>
 
 (* kind "read": an input file of the format, emitted by the harness with the *)
 (* atoms in the given order, was read by the interface's reader: no writer  *)
@@ -39,67 +51,81 @@ TChoose ==
 TOrder ==
   IF E.kind = "read"
     THEN /\ pc = "order" /\ order' = Identity(Len(cell)) /\ pc' = "write"
-         /\ UNCHANGED <<calc, cell, phase, file, back, outp, result>>
+         /\ UNCHANGED <<calc, cell, phase, file, back, outp, result, aux>>
     ELSE Order
 
-(* "rt"/"read" events end after Read (pc = "displace"), "forces" events at  *)
-(* pc = "done"; Judge then evaluates every Impl.. / Conforms.. predicate on *)
-(* the finished run and PRINTS the numbers of those that fail (see          *)
-(* JudgeNames) as <<"C17V", E.n, {numbers}>>.  The harness runs all events  *)
-(* this way (a violated INVARIANT makes TLC rebuild a trace from thousands  *)
-(* of initial states, once per event), then re-checks one representative    *)
-(* event per failing class with the predicates as INVARIANTs.               *)
-Finished == IF E.kind = "forces" THEN pc = "done" ELSE pc = "displace"
+(* "rt"/"read" events end after Read (pc = "displace"), "forces"/"convert"  *)
+(* events at pc = "done"; Judge then evaluates every Impl.. / Conforms..    *)
+(* predicate on the finished run and PRINTS the numbers of those that fail  *)
+(* (see JudgeNames) as <<"C17V", E.n, {numbers}>>.  The harness runs all    *)
+(* events this way (a violated INVARIANT makes TLC rebuild a trace from     *)
+(* thousands of initial states, once per event), then re-checks one         *)
+(* representative event per failing class with the predicates as INVARIANTs.*)
+Finished == IF E.kind \in {"forces", "convert"} THEN pc = "done" ELSE pc = "displace"
 
-AtEndRT == pc \in {"displace", "done"}
-AtEndFS == pc = "done"
+IsRT == E.kind \in {"rt", "read", "forces"}
+AtEndRT == IsRT /\ pc \in {"displace", "done"}
+AtEndFS == E.kind = "forces" /\ pc = "done"
+AtEndCV == E.kind = "convert" /\ pc = "done"
 Ok == E.eres.status = "ok"
+Carried == MomentsCarried(E.ecalc, E.route, E.ncl)
 
 ImplNoError == AtEndRT => E.eres.status # "error"
 ImplSameCrystal == (AtEndRT /\ Ok) => ReqSameCrystal(E.ecell, E.eres.atoms)
-ImplSameMoments == (AtEndRT /\ Ok /\ Trait[E.ecalc].magmom) => ReqSameMoments(E.ecell, E.eres.atoms)
+ImplSameMoments == (AtEndRT /\ Ok /\ Carried) => ReqSameMoments(E.ecell, E.eres.atoms)
 ImplOrder == (AtEndRT /\ Ok) => ReqOrder(E.ecell, E.eres.atoms)
 ImplLattice == (AtEndRT /\ Ok) => E.eres.latticeOK
 ImplFrame == (AtEndRT /\ Ok /\ Trait[E.ecalc].frame = "asis") => E.eres.frameOK
-ImplForcesNoError == (AtEndFS /\ E.kind = "forces") => E.fs.status \in {"built", "refused"}
-ImplForcesPaired ==
-  (AtEndFS /\ E.kind = "forces" /\ Trait[E.ecalc].points) => ReqForcesPaired(E.ecell, E.fs)
-ImplForcesPairedSameOrder ==
-  (AtEndFS /\ E.kind = "forces" /\ Ok) => ReqForcesPairedSameOrder(E.ecell, E.eres.atoms, E.fs)
-ImplNotRefused ==
-  (AtEndFS /\ E.kind = "forces" /\ Ok) => ReqNotRefusedWhenSameOrder(E.ecell, E.eres.atoms, E.fs)
+ImplForcesNoError == AtEndFS => E.fs.status \in {"built", "refused"}
+ImplForcesPaired == (AtEndFS /\ Trait[E.ecalc].points) => ReqForcesPaired(E.ecell, E.fs)
+ImplForcesPairedSameOrder == (AtEndFS /\ Ok) => ReqForcesPairedSameOrder(E.ecell, E.eres.atoms, E.fs)
+ImplNotRefused == (AtEndFS /\ Ok) => ReqNotRefusedWhenSameOrder(E.ecell, E.eres.atoms, E.fs)
+(* the displacements written to FORCE_SETS are the dataset's *)
+ImplDisplacementsKept == (AtEndFS /\ E.fs.status = "built") => E.fs.dispOK
+(* WIEN2k symmetric scf: forces of all atoms are recovered *)
+ImplSymPaired == (AtEndFS /\ E.mode.sym) => (E.fs.status = "built" /\ ReqForcesPaired(E.ecell, E.fs))
+(* conversion between interfaces *)
+ImplConvertible == AtEndCV => (Ok <=> ~Trait[E.ocalc].needsinfo)
+ImplConvertCrystal ==
+  (AtEndCV /\ Ok) => /\ ReqSameCrystal(E.ecell, E.eres.atoms) /\ ReqOrder(E.ecell, E.eres.atoms)
+                     /\ E.eres.latticeOK
+                     /\ (Trait[E.ecalc].frame = "asis" /\ Trait[E.ocalc].frame = "asis" => E.eres.frameOK)
 
 (* the machine itself on these inputs *)
 TInvSameCrystal == InvSameCrystal
 TInvOrder == InvOrder
 TInvForcesPaired == InvForcesPaired
+TInvConvert == InvConvertCrystal /\ InvConvertible
+TInvSym == InvSymPaired
 
 SameAtoms(a, b, withmom) ==
   /\ Len(a) = Len(b)
   /\ \A k \in 1..Len(a) : a[k].sp = b[k].sp /\ a[k].id = b[k].id /\ (withmom => a[k].mom = b[k].mom)
-ConformsOrder == (AtEndRT /\ Ok) => SameAtoms(E.eres.atoms, back, Trait[E.ecalc].magmom)
+ConformsOrder == ((AtEndRT \/ (AtEndCV /\ result.status = "converted")) /\ Ok) => SameAtoms(E.eres.atoms, back, IsRT /\ Carried)
 ConformsForces ==
-  (AtEndFS /\ E.kind = "forces") =>
+  AtEndFS =>
      /\ E.fs.status = result.status
      /\ (result.status = "built" => E.fs.forces = result.forces)
 
 JudgeNames == <<"ImplNoError", "ImplSameCrystal", "ImplSameMoments", "ImplOrder", "ImplLattice", "ImplFrame",
                 "ImplForcesNoError", "ImplForcesPaired", "ImplNotRefused", "ConformsOrder", "ConformsForces",
-                "ImplForcesPairedSameOrder">>
+                "ImplForcesPairedSameOrder", "ImplDisplacementsKept", "ImplSymPaired", "ImplConvertible",
+                "ImplConvertCrystal">>
 Holds(i) ==
   CASE i = 1 -> ImplNoError [] i = 2 -> ImplSameCrystal [] i = 3 -> ImplSameMoments [] i = 4 -> ImplOrder
     [] i = 5 -> ImplLattice [] i = 6 -> ImplFrame [] i = 7 -> ImplForcesNoError [] i = 8 -> ImplForcesPaired
     [] i = 9 -> ImplNotRefused [] i = 10 -> ConformsOrder [] i = 11 -> ConformsForces
-    [] i = 12 -> ImplForcesPairedSameOrder
+    [] i = 12 -> ImplForcesPairedSameOrder [] i = 13 -> ImplDisplacementsKept [] i = 14 -> ImplSymPaired
+    [] i = 15 -> ImplConvertible [] i = 16 -> ImplConvertCrystal
 Verdict == {i \in 1..Len(JudgeNames) : ~Holds(i)}
 
 Judge ==
   /\ Finished
   /\ LET v == Verdict IN IF v = {} THEN TRUE ELSE PrintT(<<"C17V", E.n, v>>)
   /\ pc' = "judged"
-  /\ UNCHANGED <<calc, cell, phase, order, file, back, outp, result>>
+  /\ UNCHANGED <<calc, cell, phase, order, file, back, outp, result, aux>>
 
-TNext == (TChoose \/ TOrder \/ Write \/ Read \/ Collect \/ Agree \/ Judge) /\ UNCHANGED ev
+TNext == (TChoose \/ TOrder \/ Write \/ Read \/ Convert \/ Collect \/ Agree \/ Judge) /\ UNCHANGED ev
 
 TSpec == TInit /\ [][TNext]_tvars
 =============================================================================
